@@ -43,11 +43,7 @@ Fixpoint runG (A:Type) (ip:list positive) (h:heap) (w:world) (c:Comp A) {struct 
       | DoneG h' w' (inl v) d => upddG (runG A ip h' w' (k v)) d
       | DoneG h' w' (inr e) d => if unmodelled e then DoneG h' w' (inr e) d else upddG (cont (runG value ip h' w' (hd e)) 0%nat k) d
       | OOFG => OOFG | ReentryG => ReentryG end
-  | World WRead k =>
-      match w_in w with
-      | [] => runG A ip h w (k VNil)
-      | l :: r => runG A ip h {| w_in := r; w_out := w_out w |} (k (VStr l)) end
-  | World (WPrint s) k => runG A ip h {| w_in := w_in w; w_out := w_out w ++ s ++ [10%N] |} (k VNil)
+  | World op k => let (w', r) := wstep w op in match r with inl v => runG A ip h w' (k v) | inr e => DoneG h w' (inr e) 0%nat end
   end.
 
 (* sequencing of outcomes *)
@@ -85,7 +81,7 @@ Proof.
     + destruct (unmodelled er); auto. rewrite IHh.
       destruct (runG value ip h1 w1 (hd er)) as [h2 w2 [sv|er2] d2| |]; cbn [to_out]; auto.
       rewrite IHk. destruct (runG value ip h2 w2 (k sv)); cbn [upddG to_out updd]; auto.
-  - destruct op; [destruct (w_in w)|]; auto.
+  - destruct (wstep w op) as [w2 [rv|re]]; auto.
 Qed.
 
 (* the law: running a sequenced computation = running the first part, then the rest from its outcome *)
@@ -117,7 +113,7 @@ Proof.
     + destruct (unmodelled er); auto.
       destruct (runG value ip h1 w1 (hd er)) as [h2 w2 [sv|er2] d2| |]; auto;
         try (rewrite IH; rewrite !thenG_upddG; reflexivity).
-  - intros op k IH B f ip h w. cbn [bind runG]. destruct op; [destruct (w_in w)|]; auto.
+  - intros op k IH B f ip h w. cbn [bind runG]. destruct (wstep w op) as [w2 [rv|re]]; auto.
 Qed.
 End RunG.
 Print Assumptions runG_bind.
